@@ -526,9 +526,10 @@ func (j *hvsJob) explore() {
 		fmt.Printf("MACHINERY-ERROR property=C02 %d cloned HeightVoteSets differ from a fresh replay\n", mismatch)
 		r.Vacuous("HeightVoteSet clone diverged from replay")
 	}
-	if r.WantSample() {
+	if r.WantSample() && !hvsSampled {
 		for i := range nodes {
 			if nodes[i].ob.polRound >= 2 && nodes[i].or.tracked >= 2 {
+				hvsSampled = true
 				r.Sample(map[string]interface{}{"kind": "hvs-state", "vector": j.pw, "history": hvsOpNames(j.path(nodes, int32(i))),
 					"impl_pol_round": nodes[i].ob.polRound, "impl_pol_block": blkName[nodes[i].ob.polBlk], "reference_round_announced": nodes[i].or.tracked})
 				break
@@ -640,6 +641,7 @@ nextViol:
 }
 
 var hvsReported = map[string]bool{}
+var hvsSampled bool
 
 func runHVS() {
 	for _, k := range []string{"vote", "vote-B", "future", "!h", "!type", "setround", "claim"} {
